@@ -920,3 +920,162 @@ def _mentions_field(t, name):
     if t[0] == 'field' and t[2] == name:
         return True
     return any(_mentions_field(x, name) for x in t[1:] if isinstance(x, tuple))
+
+
+# ------------------------------------------------------------------ R-OWN-OVERWRITE
+SETUP_SUFFIX = ('create_codec_instance', 'set_fec_parameters')
+SINGLE_SHOT_ENTRIES = set(['of_finish_decoding'])     # "finish decoding": called once per session by the documented protocol
+
+
+def _entry_reach(prog):
+    """function id -> set of public API entry names from which it is reachable through direct calls"""
+    c = prog.__dict__.get('_entry_reach')
+    if c is not None:
+        return c
+    out = {}
+    roots = [f for f in prog.all_functions if f.unit.name == 'of_openfec_api.c' and not f.internal]
+    for r in roots:
+        seen = set([id(r)])
+        work = [r]
+        while work:
+            f = work.pop()
+            out.setdefault(id(f), set()).add(r.name)
+            for call in f.calls():
+                g = prog.callee_fn(call)
+                if g is not None and id(g) not in seen:
+                    seen.add(id(g))
+                    work.append(g)
+    prog.__dict__['_entry_reach'] = out
+    return out
+
+
+def r_own_overwrite(ctx, prog):
+    """A member that owns a block must not be overwritten with a fresh allocation: outside session set-up, every store of a library
+    allocation into a control-block member is (a) under "member == NULL", in the function or at every call site of the helper
+    that contains it, (b) preceded by the release of the member, (c) transient -- the member is released and reset before every
+    non-error return, in the function or in its callers, at every site of the member -- or (d) the member's only allocation
+    site, reachable from the single-shot finish entry only."""
+    R = 'R-OWN-OVERWRITE'
+    ctx.rule(R, 'outside session set-up no control-block member that may already own a block is overwritten by a new allocation '
+             '(guarded by member == NULL, released first, transient, or single-shot)', floor=1)
+    alloc = allocator_set(prog)
+    er = _entry_reach(prog)
+    sites = []
+    for f in prog.all_functions:
+        if id(f) not in er or f.name.endswith(SETUP_SUFFIX):
+            continue
+        tt = Terms(f)
+        for i in f.all_insts():
+            if i.op != 'store':
+                continue
+            st, field = _struct_of_gep_store(i)
+            if st is None or not st.endswith('_cb'):
+                continue
+            v = tt.term(i.ops[0])
+            a = tt.term(i.ops[1])
+            if not (v[0] == 'call' and v[1] in alloc) or a[0] != 'field' or a[1][0] != 'param':
+                continue
+            sites.append((f, tt, i, field, a))
+    ctx.need(len(sites) >= 4, R, 'allocation stores into control-block members not recognised')
+    by_field = {}
+    for s in sites:
+        by_field.setdefault(s[3], []).append(s)
+
+    def guarded_here(f, tt, inst, addr):
+        return any(x[0] == 'cmp' and x[1] == 'eq' and x[3] == ('const', 0) and x[2] == ('load', addr) for x in atoms_at(f, tt, inst.block))
+
+    def released_before(f, tt, inst, addr):
+        for c in f.calls():
+            if (c.callee in DEALLOCATORS or c.callee == 'of_rs_free') and c.args and tt.term(c.args[0]) == ('load', addr) and \
+                    f.dominates(c, inst):
+                return True
+        return False
+
+    def reset_after(f, tt, start, addr):
+        """on every path from `start` to a non-error return the member is stored NULL"""
+        def stop(i):
+            return i.op == 'store' and tt.term(i.ops[1]) == addr and const_of(i.ops[0]) == 0
+        return _walk_to_nonerror_ret(f, start, stop) is None
+
+    def call_sites(f):
+        cs = []
+        for g in prog.all_functions:
+            for c in g.calls():
+                if prog.callee_fn(c) is f:
+                    cs.append((g, c))
+        return cs
+
+    def member_addr(g, gt, base, off):
+        for i in g.all_insts():
+            if i.op in ('load', 'store'):
+                t = gt.term(i.ops[0] if i.op == 'load' else i.ops[1])
+                if t[0] == 'field' and t[1] == base and t[3] == off:
+                    return t
+        return None
+
+    def callers_ok(f, pidx, field, off, depth, guard_only=False):
+        """every call site passing its own object as argument pidx of f is guarded by member == NULL"""
+        if depth > 2:
+            return False
+        cs = call_sites(f)
+        if not cs:
+            return False
+        for g, c in cs:
+            gt = Terms(g)
+            base = gt.term(c.args[pidx]) if pidx < len(c.args) else None
+            if base is None:
+                return False
+            addr_g = member_addr(g, gt, base, off)
+            if addr_g is not None and guarded_here(g, gt, c, addr_g):
+                continue
+            if base[0] == 'param' and callers_ok(g, base[1], field, off, depth + 1):
+                continue
+            return False
+        return True
+
+    def transient_in_callers(f, pidx, off, depth):
+        """at every call site the member is reset before every non-error return of the caller (or of its callers)"""
+        if depth > 2:
+            return False
+        cs = call_sites(f)
+        if not cs:
+            return False
+        for g, c in cs:
+            gt = Terms(g)
+            base = gt.term(c.args[pidx]) if pidx < len(c.args) else None
+            if base is None:
+                return False
+            addr_g = member_addr(g, gt, base, off)
+            if addr_g is not None and reset_after(g, gt, c, addr_g):
+                continue
+            if base[0] == 'param' and transient_in_callers(g, base[1], off, depth + 1):
+                continue
+            return False
+        return True
+    for field, ss in sorted(by_field.items()):
+        entries_all = set()
+        for f, tt, i, fld_, a in ss:
+            entries_all |= er.get(id(f), set())
+        # a member is persistent when some site leaves it set on return; "transient" justifies a site only for members that are
+        # NULL between API calls, i.e. when every site of the member is transient
+        trans = {}
+        for f, tt, i, fld_, a in ss:
+            trans[i.id] = reset_after(f, tt, i, a) or transient_in_callers(f, a[1][1], a[3], 0)
+        persistent = [s2 for s2 in ss if not trans[s2[2].id]]
+        for f, tt, i, fld_, a in ss:
+            how = None
+            if guarded_here(f, tt, i, a):
+                how = 'guarded by member == NULL'
+            elif released_before(f, tt, i, a):
+                how = 'released first'
+            elif callers_ok(f, a[1][1], field, a[3], 0, guard_only=True):
+                how = 'guarded at every call site'
+            elif trans[i.id] and not persistent:
+                how = 'transient member (reset before every non-error return at every site)'
+            elif entries_all <= SINGLE_SHOT_ENTRIES and len(ss) == 1:
+                how = 'only allocation site of the member, reachable from the single-shot finish entry only'
+            other = [s2 for s2 in (persistent or ss) if s2[2] is not i]
+            ctx.instance(R, how is not None, i, 'overwrite:%s:%s' % (f.name, field),
+                         '%s stores a new allocation into member %s, which may already own a block%s: the earlier block is lost '
+                         '(reachable from %s)' % (f.name, field, ' (allocated and kept at %s)' % other[0][2].loc() if other else '',
+                                                  ', '.join(sorted(er.get(id(f), set())))))
